@@ -39,6 +39,7 @@ type Runtime struct {
 	valueStream store.Stream
 	symbolTable *symbol.Table
 	mu          sync.RWMutex
+	loadMu      sync.Mutex
 }
 
 // New creates a new Runtime instance with the specified configuration.
@@ -79,6 +80,15 @@ func New(config Config) *Runtime {
 
 // Load loads symbols from the spec store into the symbol table.
 func (r *Runtime) Load(ctx context.Context, filter any) error {
+	r.loadMu.Lock()
+	defer r.loadMu.Unlock()
+
+	return r.load(ctx, filter)
+}
+
+// load is Load without taking loadMu: loads must not overlap, a load that has read the stores
+// before a change would otherwise overwrite what a later load has already published.
+func (r *Runtime) load(ctx context.Context, filter any) error {
 	if filter == nil {
 		filter = map[string]any{meta.KeyNamespace: r.namespace}
 	} else {
@@ -259,37 +269,49 @@ func (r *Runtime) Reconcile(ctx context.Context) error {
 				return err
 			}
 
-			cursor, err := r.valueStore.Find(ctx, map[string]any{value.KeyID: event.ID})
-			if err != nil {
+			if err := r.reload(ctx, event.ID); err != nil {
 				return err
-			}
-
-			var values []*value.Value
-			if err := cursor.All(ctx, &values); err != nil {
-				return err
-			}
-			values = append(values, &value.Value{ID: event.ID})
-
-			var filters []any
-			for _, id := range r.symbolTable.Keys() {
-				if sb := r.symbolTable.Lookup(id); sb != nil {
-					unstructured := &spec.Unstructured{}
-					if err := spec.As(sb.Spec, unstructured); err != nil {
-						return err
-					} else if unstructured.IsBound(values...) {
-						filters = append(filters, map[string]any{spec.KeyID: id})
-					}
-				}
-			}
-
-			if len(filters) > 0 {
-				_ = r.Load(ctx, map[string]any{"$or": filters})
 			}
 		}
 		return nil
 	})
 
 	return g.Wait()
+}
+
+// reload loads again every symbol bound to the value with the given id. The symbol table is
+// scanned and reloaded under loadMu, so that a symbol being inserted by a concurrent load is seen.
+func (r *Runtime) reload(ctx context.Context, id uuid.UUID) error {
+	r.loadMu.Lock()
+	defer r.loadMu.Unlock()
+
+	cursor, err := r.valueStore.Find(ctx, map[string]any{value.KeyID: id})
+	if err != nil {
+		return err
+	}
+
+	var values []*value.Value
+	if err := cursor.All(ctx, &values); err != nil {
+		return err
+	}
+	values = append(values, &value.Value{ID: id})
+
+	var filters []any
+	for _, id := range r.symbolTable.Keys() {
+		if sb := r.symbolTable.Lookup(id); sb != nil {
+			unstructured := &spec.Unstructured{}
+			if err := spec.As(sb.Spec, unstructured); err != nil {
+				return err
+			} else if unstructured.IsBound(values...) {
+				filters = append(filters, map[string]any{spec.KeyID: id})
+			}
+		}
+	}
+
+	if len(filters) > 0 {
+		_ = r.load(ctx, map[string]any{"$or": filters})
+	}
+	return nil
 }
 
 // Close shuts down the Runtime by closing streams and clearing the symbol table.
